@@ -4,6 +4,7 @@ import (
 	"bytes"
 	"fmt"
 	"io"
+	"os"
 	"reflect"
 	"strings"
 
@@ -65,6 +66,10 @@ func c14Probe() string {
 	}
 	return sb.String()
 }
+
+// c14SharedString: built at run time (not a constant: its bytes live on the
+// heap), handed to mq.Pub more than once.
+var c14SharedString = string(append([]byte("shared payload "), []byte(fmt.Sprint(len(os.Args)))...))
 
 type poolFrames struct {
 	probe  string
@@ -246,6 +251,15 @@ func c14Alphabet(pf *poolFrames) []poolOp {
 	for s := 0; s < 2; s++ {
 		ops = append(ops, poolOp{Name: fmt.Sprintf("forward(#%d)", s), Kind: 'f', Slot: s})
 	}
+	// copy(#i): a value copy (kept := *p) of a pool packet joins the pool -
+	// the way a program keeps a packet while it reuses the original as the
+	// destination of the next decode
+	for s := 0; s < 2; s++ {
+		ops = append(ops, poolOp{Name: fmt.Sprintf("copy(#%d)", s), Kind: 'c', Slot: s})
+	}
+	// pub: a packet built by mq.Pub from a string the caller also uses for
+	// the next packet
+	ops = append(ops, poolOp{Name: "Pub(1,t/x,s)", Kind: 'p'})
 	ops = append(ops, poolOp{Name: "scribble", Kind: 's'})
 	for s := 0; s < 3; s++ {
 		ops = append(ops, poolOp{Name: fmt.Sprintf("encode(#%d)", s), Kind: 'e', Slot: s})
@@ -275,6 +289,10 @@ func c14Run(pf *poolFrames, ops []poolOp, seq []int, globals0 digest.Sum) (f *co
 		return &core.Finding{Class: class, Detail: fmt.Sprintf("[%s]: %s", names(), what)}
 	}
 	target := -1
+	// slots that are a value copy or the source of one: setters that edit a
+	// list element in place reach both by the nature of a shallow copy, so
+	// only decodes, renderings and encodings are applied to them
+	copied := map[int]bool{}
 	shared := false // a forward op made two packets share memory on the caller's request
 	for step, oi := range seq {
 		o := ops[oi]
@@ -365,6 +383,36 @@ func c14Run(pf *poolFrames, ops []poolOp, seq []int, globals0 digest.Sum) (f *co
 			pool = append(pool, np)
 			snap = append(snap, c14Obs(np))
 			target = len(pool) - 1
+		case 'c':
+			if o.Slot >= len(pool) || len(pool) == 3 {
+				return nil, false
+			}
+			v := reflect.ValueOf(pool[o.Slot])
+			if v.Kind() != reflect.Ptr || v.Elem().Kind() != reflect.Struct {
+				return nil, false
+			}
+			cp := reflect.New(v.Elem().Type())
+			cp.Elem().Set(v.Elem())
+			np, ok := cp.Interface().(mq.Packet)
+			if !ok {
+				return nil, false
+			}
+			shared = true // a shallow copy shares its slices with the original by construction
+			copied[o.Slot], copied[len(pool)] = true, true
+			pool = append(pool, np)
+			snap = append(snap, c14Obs(np))
+			target = len(pool) - 1
+		case 'p':
+			if len(pool) == 3 {
+				return nil, false
+			}
+			var np mq.Packet
+			if res := guarded(0, func() { np = mq.Pub(1, "t/x", c14SharedString) }); res.Panic != "" || np == nil {
+				return nil, false
+			}
+			pool = append(pool, np)
+			snap = append(snap, c14Obs(np))
+			target = len(pool) - 1
 		case 's':
 			for i := range buf {
 				buf[i] = 0xff
@@ -384,6 +432,9 @@ func c14Run(pf *poolFrames, ops []poolOp, seq []int, globals0 digest.Sum) (f *co
 			case 'd':
 				res = guarded(0, func() { _ = p.String(); _ = dumpOf(p) })
 			case 'm':
+				if copied[o.Slot] {
+					return nil, false
+				}
 				ms := c14Mutators(p)
 				if o.Mutate >= len(ms) {
 					return nil, false
@@ -771,7 +822,7 @@ func runC14Pool(x *core.Ctx) {
 					continue
 				}
 			}
-			if len(seq) == 0 && ops[oi].Kind != 'r' && ops[oi].Kind != 'u' && ops[oi].Kind != 'n' && ops[oi].Kind != 's' {
+			if len(seq) == 0 && ops[oi].Kind != 'r' && ops[oi].Kind != 'u' && ops[oi].Kind != 'n' && ops[oi].Kind != 's' && ops[oi].Kind != 'p' {
 				continue // nothing to operate on yet
 			}
 			if x.Expired() {
